@@ -14,8 +14,9 @@
                   (closed), apply_async raised
      k="exec"     the job of t starts to run in the pool
      k="ready"    the pool's result for t becomes ready
-     k="poll"     the Worker's handler asked result.ready(); v = the answer
-     k="get"      the Worker's handler called result.get() / wait(); v = 1 iff the
+     k="poll"     the Worker's handler asked result.ready() (r = "wait": result.wait(timeout), which
+                  returns by itself); v = the answer
+     k="get"      the Worker's handler called result.get() / wait() without timeout; v = 1 iff the
                   result was ready (v = 0: the loop blocks on an unfinished job)
      k="value"    event.value of t was set (seen at the end of a tick); v = class
                   of the value: 1, 2 as above, 4 the job's own exception, 5 wrong
@@ -42,6 +43,7 @@
      X03.blocks_on_unfinished   the handler blocks the loop in get() / wait() on a result that is not ready
      X03.value_before_ready / X03.completion_before_ready / X03.resumed_before_ready
                                 value set / success or failure announced / caller resumed before the job ended
+     X03.announced_before_value task_success is dispatched while event.value does not hold the result yet
      X03.value_twice            event.value set more than once
      X03.notified_twice         more than one task_success / task_failure (or task_complete) for a task
      X03.resumed_twice
@@ -62,12 +64,12 @@
    dispatched when the Worker was no longer in the tree.                                                     *)
 EXTENDS Integers, Sequences
 
-MaxT == 8
+CONSTANT MaxT       \* task ids are 1..MaxT
 
 T0 == [exp |-> 0, mode |-> "", oos |-> FALSE, taken |-> 0, sub |-> 0, rej |-> 0,
        ex |-> 0, rdy |-> 0, val |-> 0, note |-> 0, res |-> 0, comp |-> 0]
 
-P0 == [ts |-> <<T0, T0, T0, T0, T0, T0, T0, T0>>,
+P0 == [ts |-> [i \in 1..MaxT |-> T0],
        closed |-> FALSE, joined |-> FALSE, stopreq |-> FALSE, unreq |-> FALSE, unregd |-> FALSE]
 
 Ln(k, t, v, r) == [k |-> k, t |-> t, v |-> v, r |-> r]
@@ -98,6 +100,7 @@ TaskFail(P, T, ln) ==
          IF T.note >= 1 THEN "X03.notified_twice"
          ELSE IF T.rdy = 0 THEN "X03.completion_before_ready"
          ELSE IF T.exp = 4 \/ ln.v # T.exp THEN "X03.wrong_result"
+         ELSE IF T.exp \in {1, 2} /\ T.val = 0 THEN "X03.announced_before_value"
          ELSE ""
     [] ln.k = "failure" ->
          IF T.note >= 1 THEN "X03.notified_twice"
